@@ -1,4 +1,4 @@
-//! E-POLICY: drive fibre_cache::policy::* through the public CachePolicy trait.
+//! E-POLICY (exe `policy`): drive fibre_cache::policy::* through the public CachePolicy trait.
 use fibre_cache::policy::{AdmissionDecision, CachePolicy};
 use std::panic::{catch_unwind, AssertUnwindSafe};
 
@@ -18,7 +18,7 @@ fn show_keys(v: &[u64]) -> String {
   v.iter().map(|k| k.to_string()).collect::<Vec<_>>().join(",")
 }
 
-pub fn run(toks: &[&str]) -> String {
+fn run(toks: &[&str]) -> String {
   let p = make(toks[0]);
   let mut outs: Vec<String> = Vec::new();
   let mut i = 1;
@@ -64,4 +64,8 @@ pub fn run(toks: &[&str]) -> String {
     }
   }
   outs.join(" ; ")
+}
+
+fn main() {
+  seqdrv::main_loop(run);
 }
